@@ -50,7 +50,8 @@ D(n) == [d |-> n]
 S(x) == [s |-> x]
 B(x) == [b |-> x]
 Has(r, f) == f \in DOMAIN r
-NumOf(x) == IF Has(x, "i") THEN x.i ELSE x.d
+C(n) == [c |-> n]                           \* xs:decimal with integral value n (1.0)
+NumOf(x) == IF Has(x, "i") THEN x.i ELSE IF Has(x, "c") THEN x.c ELSE x.d
 AbsI(n) == IF n < 0 THEN -n ELSE n
 RECURSIVE Pow(_, _)
 Pow(a, n) == IF n = 0 THEN 1 ELSE a * Pow(a, n - 1)
@@ -70,7 +71,10 @@ Var(x)        == [k |-> "var", n |-> x]
 Op(o, a, b)   == [k |-> "bin", op |-> o, a |-> a, b |-> b]       \* + - * mod eq lt
 Cat(a, b)     == [k |-> "seq", a |-> a, b |-> b]                  \* (a, b)
 If(c, a, b)   == [k |-> "if", c |-> c, a |-> a, b |-> b]
-Fun(site, ps, body) == [k |-> "fun", site |-> site, params |-> ps, body |-> body]   \* function($p..){body}
+AnyType == "item()*"
+(* function($p as T, ..){body}; Fun = every parameter undeclared, i.e. AnyType *)
+TFun(site, ps, ts, body) == [k |-> "fun", site |-> site, params |-> ps, types |-> ts, body |-> body]
+Fun(site, ps, body) == TFun(site, ps, [j \in 1..Len(ps) |-> AnyType], body)
 Ref(name, n)  == [k |-> "ref", name |-> name, arity |-> n]        \* name#n
 Hole          == [k |-> "hole"]                                    \* ? placeholder
 Call(f, args) == [k |-> "call", f |-> f, args |-> args]           \* f(args): dynamic call / partial application
@@ -80,6 +84,13 @@ Let(v, e, r)  == [k |-> "let", v |-> v, e |-> e, r |-> r]         \* let $v := e
 Index(e, j)   == [k |-> "index", e |-> e, j |-> j]                \* e[j]
 Arr(es)       == [k |-> "arr", es |-> es]                         \* [e1, e2, ...]  (3.1)
 Lits(ns)      == [k |-> "lits", ns |-> ns]                        \* (n1, n2, ...) literal integer sequence
+StrLit(x)     == [k |-> "str", v |-> x]                           \* "x"
+DLit(n)       == [k |-> "dlit", v |-> n]                          \* ne0  (xs:double literal)
+InstOf(e, t)  == [k |-> "instof", e |-> e, t |-> t]               \* e instance of t
+Map(a, r)     == [k |-> "map", s |-> a, r |-> r]                  \* a ! r   (r evaluated with the focus on each item)
+Kids(n)       == [k |-> "kids", n |-> n]                          \* /r/*[position() le n] on the fixed document
+(* the fixed document <r><a>1</a><b>22</b><c>333</c></r>: element items = [node |-> name, sv |-> string value] *)
+DocKids == <<[node |-> "a", sv |-> "1"], [node |-> "b", sv |-> "22"], [node |-> "c", sv |-> "333"]>>
 
 HasHole(args) == \E j \in 1..Len(args) : args[j].k = "hole"
 HoleM == [hole |-> TRUE]
@@ -97,6 +108,27 @@ Bind(env, params, args) ==
 Ext(env, v, val) == [w \in DOMAIN env \cup {v} |-> IF w = v THEN val ELSE env[w]]
 EmptyEnv == <<>>
 
+(* sequence types of this model and the function conversion rules (XPath 3.1 3.1.5.2): an argument must
+   match the declared type; xs:integer / xs:decimal are PROMOTED to a declared xs:double.  Only well-typed
+   calls are enumerated (an ill-typed call is XPTY0004 and is outside the explored universe). *)
+TypeMatch(x, t) ==
+  CASE t = AnyType -> TRUE
+    [] t = "xs:integer" -> Has(x, "i")
+    [] t = "xs:decimal" -> Has(x, "i") \/ Has(x, "c")
+    [] t = "xs:double" -> Has(x, "d")
+    [] t = "xs:boolean" -> Has(x, "b")
+    [] t = "xs:string" -> Has(x, "s")
+Convert(v, t) == IF t = "xs:double" /\ Len(v) = 1 /\ (Has(v[1], "i") \/ Has(v[1], "c"))
+                 THEN <<D(NumOf(v[1]))>> ELSE v
+ConvertAll(args, ts) == [j \in 1..Len(args) |-> Convert(args[j], ts[j])]
+RECURSIVE ParamTypes(_)
+ParamTypes(f) == CASE f.fn = "inline" -> f.types
+                   [] f.fn = "named" -> [j \in 1..f.arity |-> AnyType]
+                   [] f.fn = "partial" ->
+                        LET ts == ParamTypes(f.base)
+                            holes == SelectSeq([j \in 1..Len(f.mask) |-> j], LAMBDA j : Has(f.mask[j], "hole")) IN
+                        [q \in 1..Len(holes) |-> ts[holes[q]]]
+
 Arity(f) == CASE f.fn = "inline" -> Len(f.params)
               [] f.fn = "named" -> f.arity
               [] f.fn = "partial" -> NHoles(f.mask)
@@ -107,9 +139,10 @@ Arith(op, a, b) ==
   LET x == a[1]
       y == b[1]
       dbl == Has(x, "d") \/ Has(y, "d")
+      dec == Has(x, "c") \/ Has(y, "c")
       p == NumOf(x)
       q == NumOf(y)
-      N(n) == IF dbl THEN D(n) ELSE I(n) IN
+      N(n) == IF dbl THEN D(n) ELSE IF dec THEN C(n) ELSE I(n) IN
   CASE op = "+" -> <<N(p + q)>>
     [] op = "-" -> <<N(p - q)>>
     [] op = "*" -> <<N(p * q)>>
@@ -117,8 +150,27 @@ Arith(op, a, b) ==
     [] op = "eq" -> <<B(p = q)>>
     [] op = "lt" -> <<B(p < q)>>
 
+(* fn:string of the first item (integral decimals and doubles print like integers: 1.0 -> "1", 1e0 -> "1") *)
 StrOf(v) == IF v = <<>> THEN ""
-            ELSE IF Has(v[1], "s") THEN v[1].s ELSE ToString(NumOf(v[1]))
+            ELSE IF Has(v[1], "s") THEN v[1].s
+            ELSE IF Has(v[1], "b") THEN (IF v[1].b THEN "true" ELSE "false")
+            ELSE IF Has(v[1], "node") THEN v[1].sv
+            ELSE ToString(NumOf(v[1]))
+(* the focus is carried in the environment under reserved names *)
+WithFocus(env, item, pos, last) ==
+  [w \in DOMAIN env \cup {".", "#pos", "#last"} |->
+     IF w = "." THEN <<item>> ELSE IF w = "#pos" THEN <<I(pos)>> ELSE IF w = "#last" THEN <<I(last)>> ELSE env[w]]
+FocusNames == {"position", "last", "string", "string-length", "name"}    \* arity 0: use the focus
+FocusOf(env) == IF "." \in DOMAIN env THEN [item |-> env["."], pos |-> env["#pos"], last |-> env["#last"]]
+                ELSE [item |-> <<>>, pos |-> <<>>, last |-> <<>>]
+(* XPath 3.1 3.1.6: a named function reference to a focus-dependent function binds the focus of the
+   reference expression: calling the item later = calling the function where the reference was evaluated *)
+ApplyFocus(name, fo) ==
+  CASE name = "position" -> fo.pos
+    [] name = "last" -> fo.last
+    [] name = "string" -> <<S(StrOf(fo.item))>>
+    [] name = "string-length" -> <<I(Len(StrOf(fo.item)))>>
+    [] name = "name" -> <<S(fo.item[1].node)>>
 RECURSIVE ConcatStr(_)
 ConcatStr(ss) == IF ss = <<>> THEN "" ELSE Head(ss) \o ConcatStr(Tail(ss))
 
@@ -129,7 +181,11 @@ RECURSIVE Eval(_, _), Apply(_, _), ApplyNamed(_, _), FoldL(_, _, _), FoldR(_, _,
 (* key of one item under a key function (a function item, or NoKey = the item itself) *)
 NoKey == [fn |-> "none"]
 KeyOf(x, key) == IF key.fn = "none" THEN <<x>> ELSE Apply(key, << <<x>> >>)
-KeyLe(a, b) == NumOf(a[1]) <= NumOf(b[1])          \* keys are single numbers in this model
+(* keys are single numbers, booleans (false < true) or one of four strings in codepoint order *)
+StrRank(x) == CASE x = "0" -> 0 [] x = "1" -> 1 [] x = "false" -> 2 [] x = "true" -> 3
+KeyVal(k) == IF Has(k[1], "b") THEN (IF k[1].b THEN 1 ELSE 0)
+             ELSE IF Has(k[1], "s") THEN StrRank(k[1].s) ELSE NumOf(k[1])
+KeyLe(a, b) == KeyVal(a) <= KeyVal(b)
 
 (* F&O 16.2.1 fn:for-each($seq, $f) = for $i in $seq return $f($i) *)
 ForEach(s, f) == Flatten([j \in 1..Len(s) |-> Apply(f, << <<s[j]>> >>)])
@@ -155,6 +211,7 @@ ApplyNamed(name, args) ==
   CASE name = "abs" -> LET x == args[1][1] IN <<IF Has(x, "i") THEN I(AbsI(x.i)) ELSE D(AbsI(x.d))>>
     [] name = "math:pow" -> <<D(Pow(NumOf(args[1][1]), NumOf(args[2][1])))>>      \* exponent >= 0 here
     [] name = "concat" -> <<S(ConcatStr([j \in 1..Len(args) |-> StrOf(args[j])]))>>
+    [] name = "string" -> <<S(StrOf(args[1]))>>
     [] name = "count" -> <<I(Len(args[1]))>>
     [] name = "reverse" -> RevSeq(args[1])
     [] name = "for-each" -> ForEach(args[1], args[2][1])
@@ -166,8 +223,8 @@ ApplyNamed(name, args) ==
     [] name = "sort" -> IF Len(args) = 1 THEN SortBy(args[1], NoKey) ELSE SortBy(args[1], args[3][1])
 
 Apply(f, args) ==
-  CASE f.fn = "inline" -> Eval(f.body, Bind(f.env, f.params, args))
-    [] f.fn = "named" -> ApplyNamed(f.name, args)
+  CASE f.fn = "inline" -> Eval(f.body, Bind(f.env, f.params, ConvertAll(args, f.types)))
+    [] f.fn = "named" -> IF Has(f, "focus") THEN ApplyFocus(f.name, f.focus) ELSE ApplyNamed(f.name, args)
     [] f.fn = "partial" -> Apply(f.base, Fill(f.mask, args))
 
 MaskOf(args, env) ==
@@ -182,8 +239,18 @@ Eval(e, env) ==
     [] e.k = "bin" -> Arith(e.op, Eval(e.a, env), Eval(e.b, env))
     [] e.k = "seq" -> Eval(e.a, env) \o Eval(e.b, env)
     [] e.k = "if" -> IF EBV(Eval(e.c, env)) THEN Eval(e.a, env) ELSE Eval(e.b, env)
-    [] e.k = "fun" -> <<[fn |-> "inline", params |-> e.params, body |-> e.body, env |-> env]>>
-    [] e.k = "ref" -> <<[fn |-> "named", name |-> e.name, arity |-> e.arity]>>
+    [] e.k = "str" -> <<S(e.v)>>
+    [] e.k = "dlit" -> <<D(e.v)>>
+    [] e.k = "instof" -> LET v == Eval(e.e, env) IN <<B(Len(v) = 1 /\ TypeMatch(v[1], e.t))>>
+    [] e.k = "kids" -> SubSeq(DocKids, 1, e.n)
+    [] e.k = "map" ->
+         LET s == Eval(e.s, env) IN
+         Flatten([j \in 1..Len(s) |-> Eval(e.r, WithFocus(env, s[j], j, Len(s)))])
+    [] e.k = "fun" -> <<[fn |-> "inline", params |-> e.params, types |-> e.types, body |-> e.body, env |-> env]>>
+    [] e.k = "ref" ->
+         IF e.arity = 0 /\ e.name \in FocusNames
+         THEN <<[fn |-> "named", name |-> e.name, arity |-> 0, focus |-> FocusOf(env)]>>
+         ELSE <<[fn |-> "named", name |-> e.name, arity |-> e.arity]>>
     [] e.k = "call" ->
          LET f == Eval(e.f, env)[1] IN
          IF HasHole(e.args) THEN <<[fn |-> "partial", base |-> f, mask |-> MaskOf(e.args, env)]>>
@@ -229,7 +296,7 @@ Update(d, e) == [v \in DOMAIN d \cup DOMAIN e |-> IF v \in DOMAIN e THEN e[v] EL
 M0 == [d |-> EmptyEnv]
 R(v, m) == [v |-> v, m |-> m]
 
-RECURSIVE EvalI(_, _), EvalSeqI(_, _), EvalMaskI(_, _), CallI(_, _, _), BindSlotsI(_, _, _, _, _),
+RECURSIVE EvalI(_, _), EvalSeqI(_, _), EvalMaskI(_, _), CallI(_, _, _), BindSlotsI(_, _, _, _, _, _), MapI(_, _, _, _, _),
           FillSlotsI(_, _, _, _), ForI(_, _, _, _), ApplyNamedI(_, _, _)
 
 (* arguments left to right, threading the machine *)
@@ -255,15 +322,16 @@ ApplyNamedI(name, vs, m) ==
 
 (* inline partial function: for (param, token) in zip(varnames, items):
    a bare '?' takes the next call argument, any other token is a value *)
-BindSlotsI(params, slots, args, q, m) ==
+BindSlotsI(params, types, slots, args, q, m) ==
   IF params = <<>> \/ slots = <<>> THEN m
   ELSE LET s == Head(slots) IN
        IF IsHole(s)
        THEN IF q > Len(args) THEN [m EXCEPT !.d = Ext(m.d, "_escaped", Poison("IndexError"))]
-            ELSE BindSlotsI(Tail(params), Tail(slots), args, q + 1,
-                            [m EXCEPT !.d = Ext(m.d, Head(params), args[q])])
+            ELSE \* the supplied argument is converted to the declared type of the parameter AT THIS POSITION
+                 BindSlotsI(Tail(params), Tail(types), Tail(slots), args, q + 1,
+                            [m EXCEPT !.d = Ext(m.d, Head(params), Convert(args[q], Head(types)))])
        ELSE LET r == IF Has(s, "val") THEN R(s.val, m) ELSE EvalI(s.tok, m) IN
-            BindSlotsI(Tail(params), Tail(slots), args, q,
+            BindSlotsI(Tail(params), Tail(types), Tail(slots), args, q,
                        [r.m EXCEPT !.d = Ext(r.m.d, Head(params), r.v)])
 
 (* partial function of a builtin: '?' tokens get the call arguments in order,
@@ -283,15 +351,15 @@ CallI(f, args, m) ==
   ELSE CASE f.fn = "tok" ->
          \* context = copy(context); context.variables = context.variables.copy();
          \* D.update(item.variables); D[param] = arg; the caller's dict is untouched
-         LET d2 == Bind(Update(m.d, f.vars), f.params, args)
+         LET d2 == Bind(Update(m.d, f.vars), f.params, ConvertAll(args, f.types))
              r == EvalI(f.body, [m EXCEPT !.d = d2]) IN
          R(r.v, [r.m EXCEPT !.d = m.d])
     [] f.fn = "ptok" ->
          LET m1 == [m EXCEPT !.d = Update(m.d, f.vars)]
-             m2 == BindSlotsI(f.params, f.slots, args, 1, m1) IN
+             m2 == BindSlotsI(f.params, f.types, f.slots, args, 1, m1) IN
          IF "_escaped" \in DOMAIN m2.d THEN R(m2.d["_escaped"], [m2 EXCEPT !.d = m.d])
          ELSE LET r == EvalI(f.body, m2) IN R(r.v, [r.m EXCEPT !.d = m.d])
-    [] f.fn = "inst" -> ApplyNamedI(f.name, args, m)
+    [] f.fn = "inst" -> IF Has(f, "focus") THEN R(ApplyFocus(f.name, f.focus), m) ELSE ApplyNamedI(f.name, args, m)
     [] f.fn \in {"pinst", "pstat"} ->
          LET r == FillSlotsI(f.slots, args, 1, m) IN ApplyNamedI(f.name, r.vs, r.m)
 
@@ -302,8 +370,22 @@ ForI(e, items, acc, m) ==
   ELSE LET r == EvalI(e.r, [m EXCEPT !.d = Ext(m.d, e.v, <<Head(items)>>)]) IN
        ForI(e, Tail(items), acc \o r.v, r.m)
 
+(* a ! r: like `for`, the focus (context item, position, size) instead of a variable *)
+MapI(e, items, j, acc, m) ==
+  IF j > Len(items) THEN R(acc, m)
+  ELSE LET r == EvalI(e.r, [m EXCEPT !.d = WithFocus(m.d, items[j], j, Len(items))]) IN
+       MapI(e, items, j + 1, acc \o r.v, r.m)
+
 EvalI(e, m) ==
   CASE e.k = "lit" -> R(<<I(e.v)>>, m)
+    [] e.k = "str" -> R(<<S(e.v)>>, m)
+    [] e.k = "dlit" -> R(<<D(e.v)>>, m)
+    [] e.k = "instof" -> LET r == EvalI(e.e, m) IN
+                         IF IsPoison(r.v) THEN R(PoisonOf(r.v), r.m)
+                         ELSE R(<<B(Len(r.v) = 1 /\ TypeMatch(r.v[1], e.t))>>, r.m)
+    [] e.k = "kids" -> R(SubSeq(DocKids, 1, e.n), m)
+    [] e.k = "map" -> LET s == EvalI(e.s, m)
+                          r == MapI(e, s.v, 1, <<>>, s.m) IN R(r.v, [r.m EXCEPT !.d = m.d])
     [] e.k = "lits" -> R([j \in 1..Len(e.ns) |-> I(e.ns[j])], m)
     [] e.k = "empty" -> R(<<>>, m)
     [] e.k = "var" -> R(IF e.n \in DOMAIN m.d THEN m.d[e.n] ELSE Poison("XPST0008"), m)
@@ -319,9 +401,12 @@ EvalI(e, m) ==
                      IF IsPoison(c.v) THEN R(PoisonOf(c.v), c.m)
                      ELSE IF EBV(c.v) THEN EvalI(e.a, c.m) ELSE EvalI(e.b, c.m)
     [] e.k = "fun" ->      \* func = copy(self); func.variables = context.variables.copy(); return func
-         R(<<[fn |-> "tok", site |-> e.site, params |-> e.params, body |-> e.body, vars |-> m.d]>>, m)
-    [] e.k = "ref" ->      \* func = token_class(parser, nargs=arity): a fresh instance per evaluation
-         R(<<[fn |-> "inst", name |-> e.name, arity |-> e.arity]>>, m)
+         R(<<[fn |-> "tok", site |-> e.site, params |-> e.params, types |-> e.types, body |-> e.body, vars |-> m.d]>>, m)
+    [] e.k = "ref" ->      \* func = token_class(parser, nargs=arity): a fresh instance per evaluation;
+                           \* func.context = copy(context): the focus of THIS evaluation
+         IF e.arity = 0 /\ e.name \in FocusNames
+         THEN R(<<[fn |-> "inst", name |-> e.name, arity |-> 0, focus |-> FocusOf(m.d)]>>, m)
+         ELSE R(<<[fn |-> "inst", name |-> e.name, arity |-> e.arity]>>, m)
     [] e.k = "call" ->
          LET fr == EvalI(e.f, m) IN
          IF IsPoison(fr.v) THEN R(PoisonOf(fr.v), fr.m)
@@ -331,7 +416,7 @@ EvalI(e, m) ==
                 LET a == EvalMaskI(e.args, fr.m) IN
                 IF SlotPoison(a.slots) THEN R(Poison("XPST0008"), a.m)
                 ELSE IF f.fn \in {"tok", "ptok"}
-                THEN R(<<[fn |-> "ptok", site |-> f.site, params |-> f.params, body |-> f.body,
+                THEN R(<<[fn |-> "ptok", site |-> f.site, params |-> f.params, types |-> f.types, body |-> f.body,
                           vars |-> f.vars, slots |-> a.slots]>>, a.m)
                 ELSE R(<<[fn |-> "pinst", name |-> f.name, slots |-> a.slots]>>, a.m)
            ELSE LET a == EvalSeqI(e.args, fr.m) IN CallI(f, a.vs, a.m)
